@@ -16,7 +16,13 @@ import (
 // (zero / truncated) state at program point P" by a forward must-dataflow over
 // the SSA blocks of a function, with callee summaries.
 type resetEngine struct {
-	p   *core.Prog
+	// assignMode: track "definitely assigned (any value)" instead of "definitely reset"
+	assignMode bool
+	// objType: when set, every value of type *objType denotes the analysed object
+	// (single-object assumption used for Parser/Tokenizer method trees)
+	objType    *types.Named
+	coupleMemo map[string]bool
+	p          *core.Prog
 	sum map[*ssa.Function]map[int]*resetSummary
 }
 
@@ -33,11 +39,11 @@ func newResetEngine(p *core.Prog) *resetEngine {
 
 // isResetValue: storing v puts a field into the state a freshly allocated
 // object has (zero), or truncates a slice to length 0 (contents unobservable).
-func isResetValue(v ssa.Value) bool { return isResetValueIn(v, nil, nil, 0) }
+func isResetValue(v ssa.Value) bool { return (*resetEngine)(nil).isResetValueIn(v, nil, nil, 0) }
 
 // isResetValueIn additionally accepts loads of fields of obj that are
 // currently in reset state (cur), e.g. append(t.f[:0], 0) after t.f = t.f[:0].
-func isResetValueIn(v ssa.Value, cur factSet, obj ssa.Value, depth int) bool {
+func (e *resetEngine) isResetValueIn(v ssa.Value, cur factSet, obj ssa.Value, depth int) bool {
 	if depth > 6 {
 		return false
 	}
@@ -47,17 +53,17 @@ func isResetValueIn(v ssa.Value, cur factSet, obj ssa.Value, depth int) bool {
 		return true // any compile-time constant is independent of the previous holder
 	case *ssa.UnOp:
 		if x.Op == token.MUL && obj != nil {
-			if p, ok := objPath(x.X, obj); ok && p != "" && (cur[p] || cur["*"] || cur[strings.SplitN(p, ".", 2)[0]]) {
+			if p, ok := e.objPath(x.X, obj); ok && p != "" && (cur[p] || cur["*"] || cur[strings.SplitN(p, ".", 2)[0]]) {
 				return true
 			}
 		}
 	case *ssa.Call:
 		if core.IsBuiltinCall(&x.Call, "append") || (x.Call.StaticCallee() != nil && x.Call.StaticCallee().Signature.Recv() == nil && !x.Call.IsInvoke()) {
-			if x.Call.StaticCallee() != nil && len(x.Call.Args) == 0 {
-				return false // New()-style constructors may read global state; keep to constant-argument helpers
+			if x.Call.StaticCallee() != nil && len(x.Call.Args) == 0 && !core.InModule(x.Call.StaticCallee()) {
+				return false // foreign zero-argument functions (time.Now, rand…) are not state-independent
 			}
 			for _, a := range x.Call.Args {
-				if !isResetValueIn(a, cur, obj, depth+1) {
+				if !e.isResetValueIn(a, cur, obj, depth+1) {
 					return false
 				}
 			}
@@ -69,8 +75,11 @@ func isResetValueIn(v ssa.Value, cur factSet, obj ssa.Value, depth int) bool {
 				return true
 			}
 		}
+		if a, ok := x.X.(*ssa.Alloc); ok && a.Heap {
+			return true // make([]T, n, m): fresh storage
+		}
 		if x.High == nil && x.Low == nil {
-			return isResetValueIn(x.X, cur, obj, depth+1)
+			return e.isResetValueIn(x.X, cur, obj, depth+1)
 		}
 	case *ssa.MakeSlice:
 		if _, ok := core.ConstInt(x.Len); ok {
@@ -81,20 +90,84 @@ func isResetValueIn(v ssa.Value, cur factSet, obj ssa.Value, depth int) bool {
 	case *ssa.Alloc:
 		return x.Heap // address of a fresh object
 	case *ssa.ChangeType:
-		return isResetValueIn(x.X, cur, obj, depth+1)
+		return e.isResetValueIn(x.X, cur, obj, depth+1)
 	case *ssa.Convert:
-		return isResetValueIn(x.X, cur, obj, depth+1)
+		return e.isResetValueIn(x.X, cur, obj, depth+1)
+	}
+	return false
+}
+
+// paramDerived names a value computed from a parameter by field selection and
+// loads only ("result.Tokens"), or "" if it is not such a value.
+func paramDerived(v ssa.Value) string {
+	switch x := v.(type) {
+	case *ssa.Parameter:
+		return x.Name()
+	case *ssa.UnOp:
+		if x.Op == token.MUL {
+			return paramDerived(x.X)
+		}
+	case *ssa.FieldAddr:
+		if b := paramDerived(x.X); b != "" {
+			return b + "." + core.FieldName(x.X.Type(), x.Field)
+		}
+	case *ssa.Field:
+		if b := paramDerived(x.X); b != "" {
+			return b + "." + core.FieldName(x.X.Type(), x.Field)
+		}
+	}
+	return ""
+}
+
+// canon looks through the heap cell go/ssa creates for a parameter captured by
+// a closure: a load from an Alloc whose only store is a parameter is that parameter.
+func canon(v ssa.Value) ssa.Value {
+	u, ok := v.(*ssa.UnOp)
+	if !ok || u.Op != token.MUL {
+		return v
+	}
+	a, ok := u.X.(*ssa.Alloc)
+	if !ok {
+		return v
+	}
+	var src ssa.Value
+	n := 0
+	for _, ref := range core.Referrers(a) {
+		if st, ok := ref.(*ssa.Store); ok && st.Addr == ssa.Value(a) {
+			n++
+			src = st.Val
+		}
+	}
+	if n == 1 {
+		if _, isParam := src.(*ssa.Parameter); isParam {
+			return src
+		}
+	}
+	return v
+}
+
+// same: does v denote the analysed object obj?
+func (e *resetEngine) same(v, obj ssa.Value) bool {
+	if v == obj || canon(v) == obj {
+		return true
+	}
+	if e != nil && e.objType != nil {
+		if pt, ok := v.Type().Underlying().(*types.Pointer); ok {
+			if n, ok := types.Unalias(pt.Elem()).(*types.Named); ok && n == e.objType {
+				return true
+			}
+		}
 	}
 	return false
 }
 
 // objPath: if addr addresses (part of) obj, return the field path ("" = whole).
-func objPath(addr, obj ssa.Value) (string, bool) {
-	if addr == obj {
+func (e *resetEngine) objPath(addr, obj ssa.Value) (string, bool) {
+	if e.same(addr, obj) {
 		return "", true
 	}
 	if fa, ok := addr.(*ssa.FieldAddr); ok {
-		if p, ok := objPath(fa.X, obj); ok {
+		if p, ok := e.objPath(fa.X, obj); ok {
 			n := core.FieldName(fa.X.Type(), fa.Field)
 			if p == "" {
 				return n, true
@@ -262,11 +335,33 @@ func (e *resetEngine) edgeGen(b *ssa.BasicBlock, k int, obj ssa.Value) []string 
 	}
 	fieldOf := func(v ssa.Value) (string, bool) {
 		if u, ok := v.(*ssa.UnOp); ok && u.Op == token.MUL {
-			if p, ok := objPath(u.X, obj); ok && p != "" {
+			if p, ok := e.objPath(u.X, obj); ok && p != "" {
 				return p, true
 			}
 		}
 		return "", false
+	}
+	if e.assignMode {
+		// if len(param) > 0 { obj.f = param[0] }: on the empty-input edge there is nothing to assign from
+		if c, ok := bo.X.(*ssa.Call); ok && core.IsBuiltinCall(&c.Call, "len") && bo.Op == token.GTR && k == 1 {
+			if par := c.Call.Args[0]; paramDerived(par) != "" {
+				if n, isC := core.ConstInt(bo.Y); isC && n == 0 {
+					var out []string
+					for _, in := range b.Succs[0].Instrs {
+						if st, ok := in.(*ssa.Store); ok {
+							if p, ok := e.objPath(st.Addr, obj); ok && p != "" {
+								if ld, ok := st.Val.(*ssa.UnOp); ok {
+									if ia, ok := ld.X.(*ssa.IndexAddr); ok && paramDerived(ia.X) == paramDerived(par) {
+										out = append(out, p)
+									}
+								}
+							}
+						}
+					}
+					return out
+				}
+			}
+		}
 	}
 	x, y := bo.X, bo.Y
 	if core.IsNilConst(x) {
@@ -279,6 +374,29 @@ func (e *resetEngine) edgeGen(b *ssa.BasicBlock, k int, obj ssa.Value) []string 
 			}
 		}
 		return nil
+	}
+	// guarded configuration restore: if x.f != C { x.f = C; x.g = fresh… }.  On the
+	// false edge f equals the constant C; a field g assigned next to f in the guarded
+	// block is a function of f provided f and g are only ever assigned together (coupled).
+	if _, isConst := y.(*ssa.Const); isConst && !e.assignMode {
+		if pf, ok := fieldOf(x); ok && ((bo.Op == token.NEQ && k == 1) || (bo.Op == token.EQL && k == 0)) {
+			out := []string{pf}
+			guarded := b.Succs[1-k]
+			for _, in := range guarded.Instrs {
+				st, ok := in.(*ssa.Store)
+				if !ok {
+					continue
+				}
+				pg, ok := e.objPath(st.Addr, obj)
+				if !ok || pg == "" || pg == pf {
+					continue
+				}
+				if e.isResetValueIn(st.Val, factSet{pf: true}, obj, 0) && e.coupled(obj.Type(), pf, pg, y.(*ssa.Const)) {
+					out = append(out, pg)
+				}
+			}
+			return out
+		}
 	}
 	if c, ok := x.(*ssa.Call); ok && len(c.Call.Args) == 1 && (core.IsBuiltinCall(&c.Call, "len") || core.IsBuiltinCall(&c.Call, "cap")) {
 		if p, ok := fieldOf(c.Call.Args[0]); ok {
@@ -293,7 +411,7 @@ func (e *resetEngine) edgeGen(b *ssa.BasicBlock, k int, obj ssa.Value) []string 
 }
 
 func (e *resetEngine) transfer(cur factSet, in ssa.Instruction, obj ssa.Value) {
-	if v, ok := in.(ssa.Value); ok && v == obj {
+	if v, ok := in.(ssa.Value); ok && v == obj && e.objType == nil {
 		for k := range cur {
 			delete(cur, k)
 		}
@@ -301,8 +419,16 @@ func (e *resetEngine) transfer(cur factSet, in ssa.Instruction, obj ssa.Value) {
 	}
 	switch x := in.(type) {
 	case *ssa.Store:
-		p, ok := objPath(x.Addr, obj)
+		p, ok := e.objPath(x.Addr, obj)
 		if !ok {
+			return
+		}
+		if e.assignMode {
+			if p == "" {
+				cur["*"] = true
+			} else {
+				cur[p] = true
+			}
 			return
 		}
 		if p == "" {
@@ -350,7 +476,7 @@ func (e *resetEngine) transfer(cur factSet, in ssa.Instruction, obj ssa.Value) {
 			}
 			return
 		}
-		if isResetValueIn(x.Val, cur, obj, 0) {
+		if e.isResetValueIn(x.Val, cur, obj, 0) {
 			cur[p] = true
 			// a reset of a parent path covers nothing finer; a reset of "A.B" stays as such
 		} else {
@@ -373,14 +499,25 @@ func (e *resetEngine) transfer(cur factSet, in ssa.Instruction, obj ssa.Value) {
 		args := cc.Args
 		idx := -1
 		for i, a := range args {
-			if a == obj {
+			if e.same(a, obj) {
 				idx = i
 			}
 		}
-		if idx < 0 {
+		if idx < 0 && !(e.assignMode && e.objType != nil) {
 			return
 		}
 		if isPoolMethod(cc, "Put") {
+			return
+		}
+		if e.assignMode {
+			if callee := cc.StaticCallee(); callee != nil && callee.Blocks != nil {
+				if e.objType != nil {
+					idx = -1
+				}
+				for g := range e.summary(callee, idx).gen {
+					cur[g] = true
+				}
+			}
 			return
 		}
 		callee := cc.StaticCallee()
@@ -436,7 +573,10 @@ func (e *resetEngine) summary(fn *ssa.Function, param int) *resetSummary {
 		s.busy = false
 		return s
 	}
-	obj := ssa.Value(fn.Params[param])
+	var obj ssa.Value
+	if param >= 0 {
+		obj = fn.Params[param]
+	}
 	res := e.analyse(fn, obj)
 	var acc factSet
 	for _, b := range fn.Blocks {
@@ -462,7 +602,7 @@ func (e *resetEngine) summary(fn *ssa.Function, param int) *resetSummary {
 		for _, in := range b.Instrs {
 			switch x := in.(type) {
 			case *ssa.Store:
-				if p, ok := objPath(x.Addr, obj); ok && !isResetValue(x.Val) {
+				if p, ok := e.objPath(x.Addr, obj); ok && !isResetValue(x.Val) {
 					if p == "" {
 						s.all = true
 					} else {
@@ -496,6 +636,123 @@ func (e *resetEngine) summary(fn *ssa.Function, param int) *resetSummary {
 	}
 	s.busy = false
 	return s
+}
+
+// coupled: field g of T is a function of field f — every store to g happens in a
+// block that also stores f on the same object with g's value computed from
+// constants and the value stored to f; or initialises a fresh object whose f
+// stays zero while C is not the zero value (so f == C cannot hold for it).
+func (e *resetEngine) coupled(t types.Type, f, g string, C *ssa.Const) bool {
+	T := core.NamedOf(t)
+	if T == nil {
+		return false
+	}
+	key := T.Obj().Name() + "|" + f + "|" + g
+	if e.coupleMemo == nil {
+		e.coupleMemo = map[string]bool{}
+	}
+	if v, ok := e.coupleMemo[key]; ok {
+		return v
+	}
+	zeroC := C.Value == nil || isZeroConst(C)
+	ok := true
+	n := 0
+	for _, fn := range e.p.ModuleFuncs() {
+		for _, b := range fn.Blocks {
+			for _, in := range b.Instrs {
+				st, isSt := in.(*ssa.Store)
+				if !isSt {
+					continue
+				}
+				fa, isFa := st.Addr.(*ssa.FieldAddr)
+				if !isFa || core.NamedOf(fa.X.Type()) != T || core.FieldName(fa.X.Type(), fa.Field) != g {
+					continue
+				}
+				n++
+				// companion store to f on the same object in this block
+				var fv ssa.Value
+				for _, in2 := range b.Instrs {
+					if st2, ok := in2.(*ssa.Store); ok {
+						if fa2, ok := st2.Addr.(*ssa.FieldAddr); ok && fa2.X == fa.X && core.FieldName(fa2.X.Type(), fa2.Field) == f {
+							fv = st2.Val
+						}
+					}
+				}
+				if fv != nil {
+					if !funcOfConstAnd(st.Val, fv, 0) {
+						ok = false
+					}
+					continue
+				}
+				// fresh object whose f is never stored
+				if a, isAlloc := fa.X.(*ssa.Alloc); isAlloc && !zeroC {
+					stored := false
+					for _, ref := range core.Referrers(a) {
+						if fa3, ok := ref.(*ssa.FieldAddr); ok && core.FieldName(fa3.X.Type(), fa3.Field) == f {
+							stored = true
+						}
+					}
+					if !stored {
+						continue
+					}
+				}
+				ok = false
+			}
+		}
+	}
+	e.coupleMemo[key] = ok && n > 0
+	return ok && n > 0
+}
+
+func isZeroConst(c *ssa.Const) bool {
+	if c.Value == nil {
+		return true
+	}
+	switch c.Value.Kind() {
+	case constant.Int, constant.Float:
+		return constant.Sign(c.Value) == 0
+	case constant.String:
+		return constant.StringVal(c.Value) == ""
+	case constant.Bool:
+		return !constant.BoolVal(c.Value)
+	}
+	return false
+}
+
+// funcOfConstAnd: v is computed only from constants and the value w.
+func funcOfConstAnd(v, w ssa.Value, depth int) bool {
+	if v == w {
+		return true
+	}
+	if depth > 5 {
+		return false
+	}
+	switch x := v.(type) {
+	case *ssa.Const:
+		return true
+	case *ssa.Call:
+		if x.Call.IsInvoke() || x.Call.StaticCallee() == nil {
+			return false
+		}
+		for _, a := range x.Call.Args {
+			if !funcOfConstAnd(a, w, depth+1) {
+				return false
+			}
+		}
+		return true
+	case *ssa.Phi:
+		for _, ed := range x.Edges {
+			if !funcOfConstAnd(ed, w, depth+1) {
+				return false
+			}
+		}
+		return true
+	case *ssa.ChangeType:
+		return funcOfConstAnd(x.X, w, depth+1)
+	case *ssa.Convert:
+		return funcOfConstAnd(x.X, w, depth+1)
+	}
+	return false
 }
 
 // isPoolMethod reports whether the call is (*sync.Pool).<name>.
